@@ -53,6 +53,10 @@ def run(chk):
     chk.rule("ensure-consistency", "ensure_left/right_canonical: (move_qnidx target, to_right) is (0, True) / (last, False), matching canonicalise's entry assertion", 2)
     chk.rule("tree-push", "push_cano_to_parent/child = decompose_to_* followed by merge_to_* with the same node (and child index)", 2)
     svd_mode_rule(chk, src)
+    # lossless compression with per-bond limits at the Schmidt ranks needs the limit of the bond that is being cut (rule shared with C05)
+    chk.rule("bond-index", "the kept-count limit looked up for a truncation is the limit of the bond being truncated (explicit list and configuration path agree)", 6)
+    from .C05 import bond_index_rule
+    bond_index_rule(chk, src, "bond-index")
     # ---- pass-through of full_matrices inside svd_qn
     sq = src.func("renormalizer/mps/svd_qn.py", "svd_qn")
     modes = [unparse(n.value).replace(" ", "") for n in ast.walk(sq.node) if isinstance(n, ast.Assign) and unparse(n.targets[0]) == "mode"]
